@@ -28,9 +28,22 @@ def rule_wiring(ctx, rid="R11.1"):
         r.fail("%s|shape" % f.qual, site(f), "expected a single loop over the metaschema errors")
         return r
     it = loops[0].ast.iter
+    temps = {}
+    for n in cfg.live:
+        if n.kind == "stmt" and isinstance(n.ast, ast.Assign) and len(n.ast.targets) == 1 and isinstance(n.ast.targets[0], ast.Name):
+            temps.setdefault(n.ast.targets[0].id, []).append(n)
+
+    def through_temp(e):
+        """Follow a single-assignment temporary to the expression it holds."""
+        if isinstance(e, ast.Name) and e.id in temps and len(temps[e.id]) == 1 and e.id not in f.all_params:
+            used_temps.add(temps[e.id][0].id)
+            return temps[e.id][0].ast.value
+        return e
+    used_temps = set()
+    it = through_temp(it)
     ok = (isinstance(it, ast.Call) and isinstance(it.func, ast.Attribute) and it.func.attr == "iter_errors"
           and [norm(a) for a in it.args] == [sp] and not it.keywords)
-    ctor = it.func.value if ok else None
+    ctor = through_temp(it.func.value) if ok else None
     ok = ok and isinstance(ctor, ast.Call) and norm(ctor.func) == cp and [norm(a) for a in ctor.args] == ["%s.META_SCHEMA" % cp] and not ctor.keywords
     if ok:
         r.ok(site(f, it), "%s(%s.META_SCHEMA).iter_errors(%s): same class, own metaschema, no format checker, resolver or types" % (cp, cp, sp))
@@ -49,7 +62,8 @@ def rule_wiring(ctx, rid="R11.1"):
         r.ok(site(f, nxt[0].ast), "first error -> raise SchemaError.create_from(error)")
     else:
         r.fail("%s|raise" % f.qual, site(f), "the first metaschema error is not re-raised as SchemaError.create_from(error)")
-    others = [n for n in cfg.live if n.kind in ("stmt", "yield", "return", "with_enter") and not (n.kind == "stmt" and isinstance(n.ast, ast.Expr) and isinstance(n.ast.value, ast.Constant))]
+    others = [n for n in cfg.live if n.kind in ("stmt", "yield", "return", "with_enter") and n.id not in used_temps
+              and not (n.kind == "stmt" and isinstance(n.ast, ast.Expr) and isinstance(n.ast.value, ast.Constant))]
     if others:
         r.fail("%s|extra-statements|%s" % (f.qual, others[0].text), site(f, others[0].ast), "check_schema does more than validate and raise: %s" % others[0].text)
     else:
